@@ -213,6 +213,13 @@ def main():
             p = l.split("\t")
             if len(p) >= 6:
                 rows[p[0]] = p
+    cross = {}
+    cp = f"{V}/seeded/CROSS.tsv"
+    if os.path.exists(cp):
+        for l in open(cp).read().splitlines():
+            q = l.split("\t")
+            if len(q) >= 3:
+                cross[q[0]] = (q[1], q[2])
     out.append("| seed | change (one line) | quick verdict | caught by | wall |\n|---|---|---|---|---|")
     for d in sorted(glob.glob(f"{V}/seeded/C*")):
         sid = os.path.basename(d)
@@ -224,6 +231,9 @@ def main():
         r = rows.get(sid)
         if r:
             verdict = {"1": "VIOLATION", "0": "**missed**", "2": "inconclusive"}.get(r[3], r[3])
+            if r[3] == "0" and sid in cross:
+                verdict = f"missed by {r[1]}, VIOLATION in {cross[sid][0]}"
+                r = r[:4] + [cross[sid][1]] + r[5:]
             sig = r[4].replace('|', '\\|')
             out.append(f"| {sid} | {what} | {verdict} | `{sig}` | {r[5]} s |")
         else:
